@@ -14,13 +14,14 @@ from harness.drivers import relative_driver as R
 
 ID = "C24"
 PROP_FILE = "Props/C24.v"
-THEOREMS = ["C24_relative_sets_are_offsets_partial", "C24_reset_trace_partial", "C24_reset_restores_all_partial"]
+THEOREMS = ["C24_relative_sets_are_offsets_partial", "C24_reset_trace_partial", "C24_reset_restores_all_partial", "C24_restored_spec"]
 COQ_IMPORTS = ("From Coq Require Import PrimFloat.\nFrom BV Require Import Gen.Coalg Gen.PyGen Gen.Tie Gen.Paired Gen.Insert "
-               "Gen.Relative Gen.TiePaired Gen.TieRelative.")
+               "Gen.Relative Gen.TiePaired Gen.TieRelative Gen.TieRelativeF.")
 PARALLEL = True
 MODELLED = ("plan_mutator with the insert_reads processor and its closure initial_positions is a hand-written machine (Gen/Insert.v); "
-            "msg_mutator, finalize_wrapper and the wrappers' own generators as in C23; independent devices only (no pseudo-positioner "
-            "coupling); fake motors of the three kinds the code distinguishes; answers to position queries are None or an object that "
+            "msg_mutator, finalize_wrapper and the wrappers' own generators as in C23; devices may be children of ordinary parent "
+            "devices or pseudo axes of a fake two-axis pseudo-positioner (which parents are coupled / which devices eligible is "
+            "restated by the harness, not modelled); fake motors of the three kinds the code distinguishes; answers to position queries are None or an object that "
             "reads as a Location and as a one-field reading; rel_* plans: the inner absolute plan is a recorded message list (success "
             "path) and a mini engine answers messages the way the RunEngine would; random groups renamed by prefix / first appearance")
 RULE = ("relative_set_wrapper, reset_positions_wrapper and their composition x 14 wrapped plans (incl. failing, retrying after a "
@@ -28,7 +29,10 @@ RULE = ("relative_set_wrapper, reset_positions_wrapper and their composition x 1
         "eligibility lists x int / float / extreme-float position tables (0.1+0.2, 1e16, 1e300, subnormal, -0.0); scripts: every "
         "position x {answer None / each table position / Status, throw User0 / RequestAbort / RequestStop / PlanHalt / "
         "KeyboardInterrupt, close}; exhaustive scripts up to length 4-5; real rel_set over all wait/group combinations; mvr, rel_scan, "
-        "rel_list_scan, rel_grid_scan (snaked too) on fake motors, also with an exception thrown at message 2/5/9/14/23; random plans")
+        "rel_list_scan, rel_grid_scan (snaked too) on fake motors -- parentless and stage.x-style children of an ordinary parent "
+        "device --, also with an exception thrown at message 2/5/9/14/23; the wrappers over axes of an ordinary parent and over "
+        "the axes of a fake pseudo-positioner under devices = one axis / both axes / the pseudo-positioner itself / unrelated / None; "
+        "random plans")
 
 Y = lambda m, x=None: ["yield", x, m]      # noqa: E731
 
@@ -89,7 +93,16 @@ def base_case(w, mode, kinds, plan, devs1=None, devs2=None):
             "devs1": devs1, "devs2": devs2, "scripts": "inject", "base": ["send", 1]}
 
 
+def _build_float_instance():
+    """Gen/TieRelativeF.v (binary64 instance of the correspondence function) is deliberately outside the dependency cone
+    of Props/C24.v, so `make Props/C24.vo` does not rebuild it: do it here (a failure shows up as a broken correspondence)."""
+    from harness import core
+    core.ensure_makefile()
+    core.sh(["timeout", "1800", "make", "-j%d" % core.NCPU, "theories/Gen/TieRelativeF.vo"], cwd=core.COQ)
+
+
 def cases(rng, tier):
+    _build_float_instance()
     out = []
     quick = tier == "quick"
     kind_sets = [[0, 1, 2], [2, 0, 1], [1, 1, 0], [0, 0, 0], [2, 2, 2]]
@@ -124,6 +137,35 @@ def cases(rng, tier):
                     out.append({"w": "rel_set", "mode": mode[0], "pos": n["pos"], "init": n["init"], "kinds": [kind, 1, 2],
                                 "msgs": msgs, "plan": plan, "devs1": None, "devs2": None, "scripts": "inject", "base": ["send", 1],
                                 "stub": {"wait": wait, "group": grp}})
+    # devices with parents.  An ordinary parent (stage.x, stage.y): nothing changes, every moved axis is sent back.
+    ORD = [{"id": 3, "type": "ordinary", "children": [0, 2]}]
+    k = 0
+    for w in ("reset", "both", "relative"):
+        for mode in ("z", "f"):
+            for kinds in ([0, 1, 2], [1, 1, 1], [2, 0, 0]):
+                for i, p in enumerate(INNER[:7] + INNER[10:11]):
+                    k += 1
+                    if quick and k % 3:
+                        continue
+                    devs = [None, [0, 1, 2], [0, 2]][k % 3]
+                    c = base_case(w, mode, kinds, p, devs, devs if w == "both" else None)
+                    c["holders"] = ORD
+                    c["init"] = c["init"] + [I(0) if mode == "z" else F(0.0)]
+                    out.append(c)
+    # a fake two-axis pseudo-positioner (axes 0 and 2; device 1 independent): the axes of a COUPLED parent are
+    # recorded together with the parent and carried back by it; without a `devices` argument nothing is coupled
+    PSE = [{"id": 3, "type": "pseudo", "children": [0, 2]}]
+    for w in ("reset", "both", "relative"):
+        for i, p in enumerate(INNER[:7] + INNER[10:11]):
+            for devs in ([0, 1], [2], [3, 1], [0, 1, 2], None, [1]):
+                k += 1
+                if quick and k % 2:
+                    continue
+                c = base_case(w, "z", [1, 1, 1], p, devs, devs if w == "both" else None)
+                c["holders"] = PSE
+                c["init"] = c["init"] + [["t", [c["init"][0][1], c["init"][2][1]]]]
+                c["mode"] = "t"
+                out.append(c)
     # the relative plans themselves on fake motors, answered the way the RunEngine would (positions follow the moves)
     k = 0
     for mode in ("z", "f", "f2"):
@@ -146,12 +188,14 @@ def cases(rng, tier):
                     continue          # numpy.linspace makes floats of the end points: float cases only
                 if quick and (j + k) % 2 and mode != "z":
                     continue
-                out.append({"w": "plan", "mode": mode[0], "kinds": kinds, "init": pz, "plan_call": pl, "fail_at": None})
+                hold = [[], [{"id": 3, "type": "ordinary", "children": [0, 1]}], [{"id": 3, "type": "ordinary", "children": [2]}]][(j + k) % 3]
+                out.append({"w": "plan", "mode": mode[0], "kinds": kinds, "init": pz, "plan_call": pl, "fail_at": None, "holders": hold})
                 # the same plan failing / stopped / aborted at some message: the oracle alone judges these
                 for at in ((2, "User0"), (5, "RequestAbort"), (9, "RequestStop"), (14, "User0"), (23, "RequestAbort")):
                     if quick and (at[0] + j + k) % 3:
                         continue
-                    out.append({"w": "plan", "mode": mode[0], "kinds": kinds, "init": pz, "plan_call": pl, "fail_at": list(at)})
+                    out.append({"w": "plan", "mode": mode[0], "kinds": kinds, "init": pz, "plan_call": pl, "fail_at": list(at),
+                                "holders": hold})
     # random wrapped plans
     nrand = 40 if quick else 1200
     for _ in range(nrand):
@@ -282,6 +326,7 @@ class Engine:
         from harness.drivers import scan_fakes
         self.case = case
         self.motors = [R.KINDS[k](i, R.num_py(case["init"][i])) for i, k in enumerate(case["kinds"])]
+        R.add_holders(self.motors, case)        # stage.x-style axes: children of an ordinary parent device
         self.det = scan_fakes.make_det("det", True)
         self.pos = []            # positions reported so far (the case's answer table grows as the run goes)
         self.groups = {}
@@ -472,6 +517,18 @@ def c_optl(ds):
     return "None" if ds is None else "(Some [%s])" % "; ".join(str(d) for d in ds)
 
 
+def c_tree(case, devs):
+    """parents, coupled parents (for this `devices` argument), pseudo axes -- as the model's tables"""
+    hs = case.get("holders", [])
+    par = "[" + "; ".join("(%d, %d)" % (c, h["id"]) for h in hs for c in h["children"]) + "]"
+    psd = "[" + "; ".join("(%d, %s)" % (h["id"], D.c_list(h["children"])) for h in hs if h["type"] == "pseudo") + "]"
+    return "%s %s %s" % (par, D.c_list(R.normalise(case, devs)[1]), psd)
+
+
+def fn_name(case):
+    return {"z": "c24_z", "f": "c24_f", "t": "c24_t"}[case["mode"]]
+
+
 def coq_term_plan(case, obs):
     """success path only: the wrapped plan is the recorded message list of the absolute plan (valid while nothing is
     thrown into it); failing runs are judged by the oracle alone"""
@@ -502,10 +559,11 @@ def coq_term_plan(case, obs):
         prog = y if prog is None else ["seq", y, prog]
     W = 0 if case["plan_call"]["name"] == "mvr" else 2
     R_ = "[(%s, [%s])]" % (G.c_script(obs["script"][:len(trace)]), "; ".join(c_obs(o, tbl) for o in trace))
-    fn = "c24_z" if case["mode"] == "z" else "c24_f"
-    init = case["init"]
-    return "%s %d %s %s %s %s %s %s %s false %s" % (fn, W, R.c_nums(obs["pos"]), R.c_nums(init), D.c_list(case["kinds"]),
-                                                  c_optl(used), c_optl(used), R.c_tbl(tbl), G.to_coq(prog or ["pass"]), R_)
+    init = case["init"] + [case["init"][0]] * len(case.get("holders", []))
+    kinds = case["kinds"] + [1] * len(case.get("holders", []))
+    return "%s %d %s %s %s %s %s %s %s %s false %s" % (fn_name(case), W, R.c_nums(obs["pos"]), R.c_nums(init), D.c_list(kinds),
+                                                     c_optl(used), c_optl(used), c_tree(case, used), R.c_tbl(tbl),
+                                                     G.to_coq(prog or ["pass"]), R_)
 
 
 def coq_term(case, obs):
@@ -517,9 +575,15 @@ def coq_term(case, obs):
     R_ = "[" + "; ".join("(%s, [%s])" % (G.c_script(s), "; ".join(c_obs(o, tbl) for o in t)) for s, t, _, _ in runs) + "]"
     fn = "c24_z" if case["mode"] == "z" else "c24_f"
     fa = "true" if finding(case, obs) == "a" else "false"
-    return "%s %d %s %s %s %s %s %s %s %s %s" % (fn, W, R.c_nums(case["pos"]), R.c_nums(case["init"]), D.c_list(case["kinds"]),
-                                                 c_optl(case["devs1"]), c_optl(case["devs2"]), R.c_tbl(tbl), G.to_coq(case["plan"]),
-                                                 fa, R_)
+    R.TUPLES[0] = case["mode"] == "t"
+    try:
+        kinds = case["kinds"] + [1] * len(case.get("holders", []))
+        e1, e2 = R.normalise(case, case["devs1"])[0], R.normalise(case, case["devs2"])[0]
+        return "%s %d %s %s %s %s %s %s %s %s %s %s" % (
+            fn_name(case), W, R.c_nums(case["pos"]), R.c_nums(case["init"]), D.c_list(kinds), c_optl(e1), c_optl(e2),
+            c_tree(case, case["devs1"]), R.c_tbl(tbl), G.to_coq(case["plan"]), fa, R_)
+    finally:
+        R.TUPLES[0] = False
 
 
 # ------------------------------------------------------------------------------ the property, on the observation
@@ -545,7 +609,10 @@ class Layer:
 
     def __init__(self, case, kind, devs, up, down):
         self.case, self.kind, self.up, self.down = case, kind, up, down
+        devs, self.coupled = R.normalise(case, devs)
         self.elig = (lambda d: True) if devs is None else (lambda d: d in devs)
+        self.parent = {c: h["id"] for h in case.get("holders", []) for c in h["children"]}
+        self.children = {h["id"]: h["children"] for h in case.get("holders", [])}
         self.store = []            # [device, position] in first-touch order, as this layer must have recorded it
         self.class_a = False       # finding class C24-a met
         self.final = []
@@ -557,6 +624,27 @@ class Layer:
             if k == d:
                 return v
         return None
+
+    def put(self, d, v):
+        for e in self.store:
+            if e[0] == d:
+                e[1] = v
+                return
+        self.store.append([d, v])
+
+    def record(self, d, v):
+        """what the documentation of the wrappers promises to remember when device d is first touched: its position;
+        for an axis of a coupled pseudo-positioner also the parent's position and every sibling's"""
+        self.put(d, v)
+        h = self.parent.get(d)
+        if h in self.coupled:
+            init = self.case["init"]
+            self.put(h, init[h])
+            for c, x in zip(self.children[h], init[h][1]):
+                self.put(c, ["i", x])
+
+    def carried(self, d):
+        return self.parent.get(d) in self.coupled
 
     def check(self):
         case = self.case
@@ -579,7 +667,7 @@ class Layer:
                 if kinds[d] == 1 or c[0] != ("locate" if kinds[d] == 0 else "read"):
                     return "%s inserted for a device of kind %d" % (c[0], kinds[d])
                 if reply is not None and reply[0] == "send":
-                    self.store.append([d, zero if reply[1] is None else pos[reply[1]]])
+                    self.record(d, zero if reply[1] is None else pos[reply[1]])
                 elif reply is not None:
                     seen_ids.add(u[1])
                     j += 1            # the exception reaches the plan at this yield: the message never leaves
@@ -592,7 +680,7 @@ class Layer:
             if u[0][0] == "set" and self.elig(u[0][1]):
                 d = u[0][1]
                 if self.known(d) is None and kinds[d] == 1 and not again:
-                    self.store.append([d, init[d]])
+                    self.record(d, init[d])
                 p0 = self.known(d)
                 if p0 is None:
                     if again and pid == u[1]:
@@ -615,13 +703,13 @@ class Layer:
         fs = [c for c, _ in self.final if c[0] == "set"]
         if len({c[-1] for c, _ in self.final}) > 1:
             return "cleanup messages in different groups"
-        want = [["set", d, v, self.final[0][0][-1]] for d, v in self.store] if self.final else []
+        want = [["set", d, v, self.final[0][0][-1]] for d, v in self.store if not self.carried(d)] if self.final else []
         if fs != want[:len(fs)]:
             return "cleanup yields %s, recorded initial positions %s" % (fs, self.store)
         if ended_plainly and all(r is None or r[0] == "send" for _, r in self.final):
             if fs != want or not self.final or self.final[-1][0][0] != "wait":
                 return "recorded %s, cleanup was %s" % (self.store, [c for c, _ in self.final])
-            missing = [d for d in self.moved if self.known(d) is None]
+            missing = [d for d in self.moved if self.known(d) is None and not self.carried(d)]
             if missing and not self.class_a:
                 return "devices %s were moved but not sent back" % missing
         return None
